@@ -90,8 +90,20 @@ def checks(sd, pids):
         if rc != 0:
             return {'error': 'patch does not apply'}
         if not pids:
+            # one combined analysis for all properties (./check ALL)
+            ev = tempfile.mkdtemp(prefix='seedchk-ev-')
+            rc, o = sh([os.path.join(HERE, 'check'), 'ALL', '--tier', 'quick'], HERE,
+                       env={'VERIF_REPO': w, 'VERIF_EVIDENCE_DIR': ev})
+            shutil.rmtree(ev, ignore_errors=True)
+            try:
+                fired = json.loads(o[o.index('{'):])
+            except Exception:
+                return {'error': 'combined run failed', 'tail': o[-600:]}
             m = json.load(open(os.path.join(HERE, 'MANIFEST.json')))
-            pids = [c['property_id'] for c in m['checks']]
+            for c in m['checks']:
+                pid = c['property_id']
+                out[pid] = {'fired': pid in fired, 'rc': 1 if pid in fired else 0, 'reports': fired.get(pid, [])}
+            return out
         for pid in pids:
             ev = tempfile.mkdtemp(prefix='seedchk-ev-')
             rc, o = sh([os.path.join(HERE, 'check'), pid, '--tier', 'quick'], HERE,
